@@ -12,7 +12,8 @@
    [slice lo hi l] = l[lo:hi]. *)
 From Coq Require Import List NArith ZArith Bool Arith Permutation Sorted.
 From KV Require Import Model.GroupBalancers Proofs.GroupBalancersBase Proofs.GroupBalancersRange
-  Proofs.GroupBalancersRR Proofs.GroupBalancersProofs Proofs.GroupBalancersRackGlobal.
+  Proofs.GroupBalancersRR Proofs.GroupBalancersProofs Proofs.GroupBalancersRackGlobal
+  Proofs.GroupBalancersLeader.
 Import ListNotations.
 
 (* ---- exactly once, to a subscriber, nothing else ----
@@ -176,6 +177,83 @@ Theorem C14_rack_affinity : forall zo ro ms ps a, wf_group ms ->
 Proof. exact rack_affinity. Qed.
 Print Assumptions C14_rack_affinity.
 
+(* ---- the group leader (reader.go extractTopics + consumergroup.go assignTopicPartitions):
+   [extract_topics ms] are the topics the leader asks the broker for, [read_partitions
+   cluster topics] the broker's answer (the partitions of exactly those topics),
+   [leader_range/leader_rr/leader_rack] the balancer applied to the members and that answer.
+   The leader asks for exactly the subscribed topics, each once, in sorted order. ---- *)
+Theorem C14_extract_topics : forall ms,
+  (forall t, In t (extract_topics ms) <-> exists m, In m ms /\ In t (m_topics m)) /\
+  NoDup (extract_topics ms) /\
+  StronglySorted (fun a b => bytes_ltb a b = true) (extract_topics ms).
+Proof. exact extract_topics_spec. Qed.
+Print Assumptions C14_extract_topics.
+
+(* what the balancer is handed for a topic: all the cluster has, iff somebody subscribes *)
+Theorem C14_leader_partitions : forall ms cluster t,
+  find_partitions t (read_partitions cluster (extract_topics ms)) =
+  if existsb (subscribes t) ms then find_partitions t cluster else [].
+Proof. exact find_partitions_leader. Qed.
+Print Assumptions C14_leader_partitions.
+
+(* end to end, judged against the CLUSTER: no key twice, keys are subscriptions of listed
+   members, and per topic the assigned partitions are exactly (multiset) the partitions the
+   cluster has of it when it has a subscriber, none otherwise; loads floor/ceil *)
+Theorem C14_leader_partition : forall ms cluster, wf_group ms ->
+  forall a,
+    (a = leader_range ms cluster \/ a = leader_rr ms cluster \/
+     (exists zo ro,
+        (forall t, Permutation (zo t) (zones_of (aget t (partitions_by_topic (leader_partitions ms cluster)))) /\
+                   Permutation (ro t) (zones_of (aget t (partitions_by_topic (leader_partitions ms cluster))))) /\
+        leader_rack zo ro ms cluster = Some a)) ->
+    NoDup (tkeys a) /\
+    (forall tr, In tr a ->
+       exists m, In m ms /\ m_id m = fst (fst tr) /\ In (snd (fst tr)) (m_topics m)) /\
+    (forall t, Permutation (topic_parts a t)
+                           (if existsb (subscribes t) ms then find_partitions t cluster else [])).
+Proof. exact leader_partition_all. Qed.
+Print Assumptions C14_leader_partition.
+
+Theorem C14_leader_rack_no_panic : forall zo ro ms cluster, wf_group ms ->
+  (forall t, Permutation (zo t) (zones_of (aget t (partitions_by_topic (leader_partitions ms cluster)))) /\
+             Permutation (ro t) (zones_of (aget t (partitions_by_topic (leader_partitions ms cluster))))) ->
+  exists a, leader_rack zo ro ms cluster = Some a.
+Proof. exact leader_rack_no_panic. Qed.
+Print Assumptions C14_leader_rack_no_panic.
+
+(* with distinct partition ids per topic in the cluster: every partition the cluster has
+   of a subscribed topic is held by exactly one listed member, a subscriber of the topic —
+   for Range, RoundRobin and (every iteration order) RackAffinity *)
+Theorem C14_leader_exactly_one : forall ms cluster t p, wf_group ms ->
+  NoDup (find_partitions t cluster) -> In p (find_partitions t cluster) ->
+  (exists m, In m ms /\ In t (m_topics m)) ->
+  let one_holder a :=
+    exists m, In m ms /\ In t (m_topics m) /\ In p (assigned a (m_id m) t) /\
+      forall m', In m' ms -> In p (assigned a (m_id m') t) -> m' = m in
+  one_holder (leader_range ms cluster) /\
+  one_holder (leader_rr ms cluster) /\
+  forall zo ro a,
+    (forall t, Permutation (zo t) (zones_of (aget t (partitions_by_topic (leader_partitions ms cluster)))) /\
+               Permutation (ro t) (zones_of (aget t (partitions_by_topic (leader_partitions ms cluster))))) ->
+    leader_rack zo ro ms cluster = Some a -> one_holder a.
+Proof. exact leader_exactly_one. Qed.
+Print Assumptions C14_leader_exactly_one.
+
+Theorem C14_leader_even : forall ms cluster, wf_group ms ->
+  forall a,
+    (a = leader_range ms cluster \/ a = leader_rr ms cluster \/
+     (exists zo ro,
+        (forall t, Permutation (zo t) (zones_of (aget t (partitions_by_topic (leader_partitions ms cluster)))) /\
+                   Permutation (ro t) (zones_of (aget t (partitions_by_topic (leader_partitions ms cluster))))) /\
+        leader_rack zo ro ms cluster = Some a)) ->
+  forall t m1 m2, In m1 ms -> In m2 ms -> In t (m_topics m1) -> In t (m_topics m2) ->
+    let P := length (find_partitions t cluster) in
+    let M := length (filter (subscribes t) ms) in
+    length (assigned a (m_id m1) t) <= length (assigned a (m_id m2) t) + 1 /\
+    P / M <= length (assigned a (m_id m1) t) <= P / M + 1.
+Proof. exact leader_even_all. Qed.
+Print Assumptions C14_leader_even.
+
 (* ---- non-vacuity: a concrete group meeting the hypotheses ---- *)
 Definition ex_ms : list member :=
   [ mkMember [99]%N [[116]; [117]]%N [2]%N;      (* "c" subscribes t,u  rack 2 *)
@@ -216,3 +294,11 @@ Example C14_example_rack :
   Some [ ([99]%N, [116]%N, [4; 7]%Z); ([97]%N, [116]%N, [0; 2]%Z); ([97; 49]%N, [116]%N, [9]%Z);
          ([99]%N, [117]%N, [0]%Z) ].
 Proof. vm_compute. reflexivity. Qed.
+
+(* the pattern that hides a topic from a leader that stops at the first seen topic:
+   "a" lists t, "c" lists t then u *)
+Example C14_example_leader :
+  extract_topics ex_ms = [[116]; [117]]%N /\
+  leader_range ex_ms ex_ps = range_assign ex_ms ex_ps /\
+  extract_topics [mkMember [97]%N [[116]]%N []; mkMember [99]%N [[116]; [117]]%N []] = [[116]; [117]]%N.
+Proof. vm_compute. repeat split; reflexivity. Qed.
